@@ -136,6 +136,42 @@ StructuredData SDSet::Diff'''),
       }
     }
     isCompleted = true;'''),
+ ('ccl/cclGraph/src/CGraph.cpp', 'edge count summed over the inputs lists', '''return val + static_cast<VertexIndex>(ssize(item.outputs)); });''', '''return val + static_cast<VertexIndex>(ssize(item.inputs)); });'''),
+ ('ccl/cclGraph/src/CGraph.cpp', 'forward closure marks a vertex when it is popped', '''  UnorderedItems result{};
+  while (!empty(toVisit)) {
+    const auto item = toVisit.back();
+    toVisit.pop_back();
+    result.emplace(graph[item].uid);
+    for (const auto child : graph[item].outputs) {
+      if (!marked[child]) {
+        marked[child] = true;
+        toVisit.push_back(child);
+      }
+    }
+  }
+
+  return result;
+}
+
+CGraph::UnorderedItems CGraph::ExpandInputs''', '''  UnorderedItems result{};
+  std::vector<bool> done(size(graph), false);
+  while (!empty(toVisit)) {
+    const auto item = toVisit.back();
+    toVisit.pop_back();
+    if (done[item]) {
+      continue;
+    }
+    done[item] = true;
+    result.emplace(graph[item].uid);
+    for (const auto child : graph[item].outputs) {
+      toVisit.push_back(child);
+    }
+  }
+
+  return result;
+}
+
+CGraph::UnorderedItems CGraph::ExpandInputs'''),
 ]
 
 
